@@ -171,6 +171,8 @@ type DefaultCommodityDirective struct {
 	Symbol string
 	Format string
 	Range  Range
+	// SymbolRange covers the commodity symbol as written in the sample amount.
+	SymbolRange Range
 }
 
 func (DefaultCommodityDirective) directive()        {}
